@@ -872,6 +872,9 @@ class Engine:
         if extra:
             self.solver.push()
             self.solver.add(*extra)
+            if os.environ.get("SYMX_DUMP_LAST"):
+                with open(os.environ["SYMX_DUMP_LAST"], "w") as fh:
+                    fh.write(self.solver.to_smt2())
             r = self.solver.check()
             m = self.solver.model() if r == z3.sat else None
             self.solver.pop()
